@@ -21,95 +21,7 @@ open SwV.Model.C18 SwV.Lemmas.C18 SwV.Lemmas.C20 SwV.Lemmas.C20Batch
 /-- file ids handed to the two deletion sinks by one operation -/
 def emitted (o : Out) : List Nat := o.q ++ o.d
 
-/-- operations of the plain world: create / overwrite a name with an entry whose chunks no OTHER name lists,
-    delete a file with data deletion -/
-def PlainOk (s : St) : Op → Prop
-  | .create p e _ => e.hl = 0 ∧ FreshFor s p e
-  | .delete p _ _ dc => dc = true ∧ ∃ n par a, p = n :: par ∧ (p, a) ∈ s.ents ∧ a.isDir = false
-  | _ => False
-
-/-- one step: the world stays plain and exclusive, gc_safe and gc_complete hold for the step -/
-theorem gc_step (s : St) (op : Op) (inv : TreeInv s) (pl : Plain s) (ex : Excl s) (ok : PlainOk s op) :
-    GcOk s (step s op).1 (emitted (step s op).2) := by
-  cases op with
-  | create p e x =>
-    have := gcOk_createEntry inv pl ex p e x ok.1 ok.2
-    simp only [step, emitted]
-    rcases hc : createEntry s p e x with ⟨s', r, q⟩
-    rw [hc] at this
-    simpa using this
-  | delete p r i dc =>
-    rcases ok with ⟨hdc, n, par, a, hp, hm, hf⟩
-    subst hdc
-    subst hp
-    have := (gcOk_deleteFile inv pl ex n par a hm hf r).2
-    simp only [step, emitted]
-    rcases hc : deleteEntry s (n :: par) r true with ⟨s', r', d⟩
-    rw [hc] at this
-    simpa using this
-  | update p e => exact absurd ok (by simp [PlainOk])
-  | write p t c => exact absurd ok (by simp [PlainOk])
-  | link a b h => exact absurd ok (by simp [PlainOk])
-  | unlink p => exact absurd ok (by simp [PlainOk])
-  | rename a b => exact absurd ok (by simp [PlainOk])
-
-/-- gc_safe (one step): nothing handed to a deletion sink is referenced by a live name afterwards -/
-theorem gc_safe (s : St) (op : Op) (inv : TreeInv s) (pl : Plain s) (ex : Excl s) (ok : PlainOk s op) :
-    ∀ c ∈ emitted (step s op).2, ¬ Referenced (step s op).1 c :=
-  (gc_step s op inv pl ex ok).2.2.1
-
-/-- gc_complete (one step): every chunk that stopped being referenced was handed to a deletion sink -/
-theorem gc_complete (s : St) (op : Op) (inv : TreeInv s) (pl : Plain s) (ex : Excl s) (ok : PlainOk s op) :
-    ∀ c, Referenced s c → ¬ Referenced (step s op).1 c → c ∈ emitted (step s op).2 :=
-  (gc_step s op inv pl ex ok).2.2.2
-
-/-- overwrite with shared chunks (append, partial rewrite): exactly the chunks the new version no longer lists are queued -/
-theorem overwrite_emits_exactly (s : St) (n : String) (par : RPath) (e old : Entry)
-    (h : find s (n :: par) = some old) (hk : old.isDir = e.isDir) :
-    ∀ c, c ∈ (createEntry s (n :: par) e false).2.2 ↔ c ∈ old.chunks ∧ c ∉ e.chunks := by
-  intro c
-  simp [createEntry, h, hk, mem_notNew]
-
-/-! ### histories -/
-
-def AllowedRun : St → List Op → Prop
-  | _, [] => True
-  | s, op :: t => PlainOk s op ∧ AllowedRun (step s op).1 t
-
-/-- gc_safe and gc_complete hold at every step of the history -/
-def SafeRun : St → List Op → Prop
-  | _, [] => True
-  | s, op :: t =>
-    (∀ c ∈ emitted (step s op).2, ¬ Referenced (step s op).1 c) ∧
-    (∀ c, Referenced s c → ¬ Referenced (step s op).1 c → c ∈ emitted (step s op).2) ∧
-    SafeRun (step s op).1 t
-
-theorem plainOk_opOk (s : St) (op : Op) (h : PlainOk s op) : OpOk op := by
-  cases op <;> simp [OpOk, PlainOk] at h ⊢
-  intro _; exact h.1
-
-/-- MAIN: along ANY history of creates / overwrites (with chunks shared between versions) / file deletes that respects the
-    client contract, no chunk handed to a deletion sink is still referenced, and every chunk that stops being
-    referenced is handed over — at every step (induction over the history; `Plain`/`Excl` are the invariant) -/
-theorem gc_history (ops : List Op) : ∀ s, TreeInv s → Plain s → Excl s → AllowedRun s ops →
-    SafeRun s ops ∧ Plain (run s ops) ∧ Excl (run s ops) := by
-  induction ops with
-  | nil => intro s _ pl ex _; exact ⟨trivial, pl, ex⟩
-  | cons op t ih =>
-    intro s inv pl ex ok
-    have G := gc_step s op inv pl ex ok.1
-    have IH := ih _ (inv_step inv (plainOk_opOk s op ok.1)) G.1 G.2.1 ok.2
-    exact ⟨⟨G.2.2.1, G.2.2.2, IH.1⟩, IH.2⟩
-
-theorem gc_history_from_empty (ops : List Op) (ok : AllowedRun {} ops) : SafeRun {} ops :=
-  (gc_history ops {} inv_empty (by intro x hx; simp at hx) (by intro p q a b ha; simp at ha) ok).1
-
-example : AllowedRun {} [.create ["a"] { isDir := false, tag := 1, chunks := [1, 2], hl := 0, cnt := 0 } false] := by
-  refine ⟨⟨rfl, ?_⟩, trivial⟩
-  intro q b hb
-  simp at hb
-
-/-! ### recursive delete -/
+/-! ### recursive delete (one call) -/
 
 /-- client contract: directories list no chunks -/
 def DirNoChunks (s : St) : Prop := ∀ x ∈ s.ents, x.2.isDir = true → x.2.chunks = []
@@ -153,6 +65,149 @@ theorem gc_recursive_delete (s : St) (inv : TreeInv s) (pl : Plain s) (ex : Excl
         | true => rw [dn _ hq hbd] at hcb; simp at hcb
         | false => exact hcomp q b hq ⟨hsuf, hqp⟩ hbd (pl _ hq) c hcb
     · exact absurd ((referenced_plain inv' pl' c).mpr ⟨q, b, (hx (q, b)).mpr ⟨hq, hsuf⟩, hcb⟩) hnc
+
+/-! ### one step of the plain world -/
+
+/-- what a create / delete can leave in the store -/
+theorem mem_createEntry {s : St} {p : RPath} {e : Entry} {x : Bool} (inv : TreeInv s) :
+    ∀ y ∈ (createEntry s p e x).1.ents, y ∈ s.ents ∨ y.2.chunks = [] ∨ y = (p, e) := by
+  unfold createEntry
+  split
+  · intro y hy; exact Or.inl hy
+  · rename_i n par
+    split
+    · have N := ensureParent_new_are_dirs e par s inv
+      rcases hr : ensureParent e par s with ⟨s1, b⟩
+      rw [hr] at N
+      cases b with
+      | false =>
+        intro y hy
+        rcases N y hy with h | h
+        · exact Or.inl h
+        · exact Or.inr (Or.inl h.1)
+      | true =>
+        intro y hy
+        rcases mem_wInsert.mp hy with h | ⟨h, _⟩
+        · exact Or.inr (Or.inr h)
+        · rcases N y h with h' | h'
+          · exact Or.inl h'
+          · exact Or.inr (Or.inl h'.1)
+    · split
+      · intro y hy; exact Or.inl hy
+      · split
+        · intro y hy; exact Or.inl hy
+        · intro y hy
+          rcases mem_wInsert.mp hy with h | ⟨h, _⟩
+          · exact Or.inr (Or.inr h)
+          · exact Or.inl h
+
+theorem dirNoChunks_createEntry {s : St} {p : RPath} {e : Entry} {x : Bool} (inv : TreeInv s) (dn : DirNoChunks s)
+    (he : e.isDir = true → e.chunks = []) : DirNoChunks (createEntry s p e x).1 := by
+  intro y hy hd
+  rcases mem_createEntry inv y hy with h | h | h
+  · exact dn y h hd
+  · exact h
+  · subst h; exact he hd
+
+/-- operations of the plain world: create / overwrite a name with an entry whose chunks no OTHER name lists (a
+    directory entry lists none); delete a file, or delete anything recursively, with data deletion -/
+def PlainOk (s : St) : Op → Prop
+  | .create p e _ => e.hl = 0 ∧ FreshFor s p e ∧ (e.isDir = true → e.chunks = [])
+  | .delete p r _ dc => dc = true ∧ ∃ n par a, p = n :: par ∧ find s p = some a ∧ (a.isDir = false ∨ r = true)
+  | _ => False
+
+/-- one step: the world stays plain and exclusive, gc_safe and gc_complete hold for the step -/
+theorem gc_step (s : St) (op : Op) (inv : TreeInv s) (pl : Plain s) (ex : Excl s) (dn : DirNoChunks s) (ok : PlainOk s op) :
+    GcOk s (step s op).1 (emitted (step s op).2) ∧ DirNoChunks (step s op).1 := by
+  cases op with
+  | create p e x =>
+    have := gcOk_createEntry inv pl ex p e x ok.1 ok.2.1
+    have hdn := dirNoChunks_createEntry (p := p) (x := x) inv dn ok.2.2
+    simp only [step, emitted]
+    rcases hc : createEntry s p e x with ⟨s', r, q⟩
+    rw [hc] at this hdn
+    exact ⟨by simpa using this, hdn⟩
+  | delete p r i dc =>
+    rcases ok with ⟨hdc, n, par, a, hp, hf, hk⟩
+    subst hdc
+    subst hp
+    have hdn : DirNoChunks (deleteEntry s (n :: par) r true).1 :=
+      fun y hy hd => dn y (deleteEntry_subset inv y hy) hd
+    have hg : GcOk s (deleteEntry s (n :: par) r true).1 (deleteEntry s (n :: par) r true).2.2 := by
+      rcases hk with hfile | hrec
+      · rcases find_stored inv hf with ⟨a0, hm, hk0⟩
+        exact (gcOk_deleteFile inv pl ex n par a0 hm (by rw [hk0, hfile]) r).2
+      · subst hrec
+        exact (gc_recursive_delete s inv pl ex dn n par a hf).2
+    simp only [step, emitted]
+    rcases hc : deleteEntry s (n :: par) r true with ⟨s', r', d⟩
+    rw [hc] at hg hdn
+    exact ⟨by simpa using hg, hdn⟩
+  | update p e => exact absurd ok (by simp [PlainOk])
+  | write p t c => exact absurd ok (by simp [PlainOk])
+  | link a b h => exact absurd ok (by simp [PlainOk])
+  | unlink p => exact absurd ok (by simp [PlainOk])
+  | rename a b => exact absurd ok (by simp [PlainOk])
+
+/-- gc_safe (one step): nothing handed to a deletion sink is referenced by a live name afterwards -/
+theorem gc_safe (s : St) (op : Op) (inv : TreeInv s) (pl : Plain s) (ex : Excl s) (dn : DirNoChunks s) (ok : PlainOk s op) :
+    ∀ c ∈ emitted (step s op).2, ¬ Referenced (step s op).1 c :=
+  (gc_step s op inv pl ex dn ok).1.2.2.1
+
+/-- gc_complete (one step): every chunk that stopped being referenced was handed to a deletion sink -/
+theorem gc_complete (s : St) (op : Op) (inv : TreeInv s) (pl : Plain s) (ex : Excl s) (dn : DirNoChunks s) (ok : PlainOk s op) :
+    ∀ c, Referenced s c → ¬ Referenced (step s op).1 c → c ∈ emitted (step s op).2 :=
+  (gc_step s op inv pl ex dn ok).1.2.2.2
+
+/-- overwrite with shared chunks (append, partial rewrite): exactly the chunks the new version no longer lists are queued -/
+theorem overwrite_emits_exactly (s : St) (n : String) (par : RPath) (e old : Entry)
+    (h : find s (n :: par) = some old) (hk : old.isDir = e.isDir) :
+    ∀ c, c ∈ (createEntry s (n :: par) e false).2.2 ↔ c ∈ old.chunks ∧ c ∉ e.chunks := by
+  intro c
+  simp [createEntry, h, hk, mem_notNew]
+
+/-! ### histories -/
+
+def AllowedRun : St → List Op → Prop
+  | _, [] => True
+  | s, op :: t => PlainOk s op ∧ AllowedRun (step s op).1 t
+
+/-- gc_safe and gc_complete hold at every step of the history -/
+def SafeRun : St → List Op → Prop
+  | _, [] => True
+  | s, op :: t =>
+    (∀ c ∈ emitted (step s op).2, ¬ Referenced (step s op).1 c) ∧
+    (∀ c, Referenced s c → ¬ Referenced (step s op).1 c → c ∈ emitted (step s op).2) ∧
+    SafeRun (step s op).1 t
+
+theorem plainOk_opOk (s : St) (op : Op) (h : PlainOk s op) : OpOk op := by
+  cases op with
+  | create p e x => intro _; exact h.1
+  | update p e => exact absurd h (by simp [PlainOk])
+  | _ => simp [OpOk]
+
+/-- MAIN: along ANY history of creates / overwrites (with chunks shared between versions) / file deletes / recursive
+    deletes of whole trees that respects the client contract, no chunk handed to a deletion sink is still referenced,
+    and every chunk that stops being referenced is handed over — at every step (induction over the history;
+    `Plain`/`Excl`/`DirNoChunks` are the invariant) -/
+theorem gc_history (ops : List Op) : ∀ s, TreeInv s → Plain s → Excl s → DirNoChunks s → AllowedRun s ops →
+    SafeRun s ops ∧ Plain (run s ops) ∧ Excl (run s ops) := by
+  induction ops with
+  | nil => intro s _ pl ex _ _; exact ⟨trivial, pl, ex⟩
+  | cons op t ih =>
+    intro s inv pl ex dn ok
+    have G := gc_step s op inv pl ex dn ok.1
+    have IH := ih _ (inv_step inv (plainOk_opOk s op ok.1)) G.1.1 G.1.2.1 G.2 ok.2
+    exact ⟨⟨G.1.2.2.1, G.1.2.2.2, IH.1⟩, IH.2⟩
+
+theorem gc_history_from_empty (ops : List Op) (ok : AllowedRun {} ops) : SafeRun {} ops :=
+  (gc_history ops {} inv_empty (by intro x hx; simp at hx) (by intro p q a b ha; simp at ha)
+    (by intro x hx; simp at hx) ok).1
+
+example : AllowedRun {} [.create ["a"] { isDir := false, tag := 1, chunks := [1, 2], hl := 0, cnt := 0 } false] := by
+  refine ⟨⟨rfl, ?_, by simp⟩, trivial⟩
+  intro q b hb
+  simp at hb
 
 /-! ### hard-linked names under the client protocol -/
 
